@@ -36,14 +36,18 @@ def run_case(case, rnd, n_points):
     fam = str(case["fam"])
     term = totuple(case["term"])
     kind = str(case["kind"])
+    jac = totuple(case["jac"]) if "jac" in case else ("none",)
     rec = {"fam": fam, "cens": str(case["cens"]), "pos": str(case["pos"]), "shp": str(case["shp"]), "src": bool(case["src"]),
            "yb": str(case["yb"]), "pb": str(case["pb"]), "kind": kind, "n_points": 0}
     ok, fin, lay, routes = True, True, True, True
+    notes = {"d_self_ok": 0, "d_self_bad": 0, "jac_ok": 0, "jac_bad": 0, "jac_example": None}
     worst = None
     for _ in range(n_points):
         env = {"pi": math.pi}
         try:
             got, ref, lay_p, routes_p = _point(fam, term, kind, rec, env, rnd)
+            if jac[0] != "none":
+                _derivative_notes(fam, term, jac, env, notes)
         except Exception as e:  # noqa: BLE001 - the library raised on a value inside the support: a verdict, not a machinery failure
             got, ref, lay_p, routes_p = float("nan"), None, False, False
             if worst is None:
@@ -61,7 +65,35 @@ def run_case(case, rnd, n_points):
         ok &= m
         fin &= math.isfinite(got)
     rec.update(all_match=bool(ok), all_finite=bool(fin), layouts_match=bool(lay), routes_agree=bool(routes), worst=worst)
+    rec["derivative_notes"] = notes
     return rec
+
+
+def _derivative_notes(fam, term, jac, env, notes):
+    """Beyond the listed properties (conformance notes, never violations): the derivative handed out by the Gaussian families
+    against D(Term, "x") of Likelihood.tla, and D itself against a central difference of the evaluated term."""
+    if "x" not in env:
+        return
+    d = ev(jac, env)
+    h = 1e-4 * max(1.0, abs(env["x"]))
+    fd = (ev(term, dict(env, x=env["x"] + h)) - ev(term, dict(env, x=env["x"] - h))) / (2 * h)
+    notes["d_self_ok" if abs(d - fd) <= 1e-5 * (1 + abs(d)) else "d_self_bad"] += 1
+    try:
+        x = WeightedTensor(torch.tensor([[env["x"]]], dtype=torch.float32))
+        if fam == "normal":
+            g = NormalFamily.nll_jacobian(x, torch.tensor(env["mu"]), torch.tensor(env["sigma"])).value.reshape(-1)[0].item()
+            g2 = NormalFamily.nll_and_jacobian(x, torch.tensor(env["mu"]), torch.tensor(env["sigma"]))[1].value.reshape(-1)[0].item()
+            good = close(g, d, rel=5e-4, abs_=1e-4) and close(g2, d, rel=5e-4, abs_=1e-4)
+        else:
+            from leaspy.variables.distributions import MixtureNormalFamily
+            mus, sigs = torch.tensor([env["mu"], env["mu"] + 1.0]), torch.tensor([env["sigma"], 2 * env["sigma"]])
+            g = MixtureNormalFamily._nll_and_jacobian(x, mus, sigs, torch.tensor([0.3, 0.7]))[1].value.reshape(-1)[0].item()
+            good = close(g, d, rel=5e-4, abs_=1e-4)
+    except Exception as e:  # noqa: BLE001
+        g, good = f"{type(e).__name__}: {str(e)[:80]}", False
+    notes["jac_ok" if good else "jac_bad"] += 1
+    if not good and notes["jac_example"] is None:
+        notes["jac_example"] = {"x": env["x"], "mu": env["mu"], "sigma": env["sigma"], "library": g, "D(Term,x)": d}
 
 
 def _same_values(a, b):
